@@ -754,4 +754,60 @@ Section Run.
       split; [reflexivity|].
       apply Hfinish; auto.
   Qed.
+
+  (* ---- what the completions of an event say ------------------------------------------------- *)
+
+  Lemma backed_mono log log' c : (forall r, In r log -> In r log') -> backed log c -> backed log' c.
+  Proof.
+    intros Hsub Hb Hs. destruct (Hb Hs) as [r [R1 R2]]. exists r. split; [apply Hsub; exact R1|exact R2].
+  Qed.
+
+  Lemma eorigin_backed log0 ext c : eorigin log0 ext c -> backed (log0 ++ ext) c.
+  Proof.
+    intros [O|u O E1 E2 E3 E4 E5]; [apply origin_backed; exact O|].
+    intro Hs. rewrite E1 in Hs. destruct (origin_backed _ _ _ O Hs) as [r [R1 [R2 [R3 [R4 [R5 R6]]]]]].
+    exists r. rewrite E1, E3. split; [exact R1|]. split; [exact R2|]. split; [exact R3|].
+    split; [exact R4|]. split; [exact R5|].
+    right. rewrite <- E3. split; [exact E4|]. rewrite E3.
+    destruct R6 as [[_ R6]|[_ R6]]; [left; exact R6|exact R6].
+  Qed.
+
+  Lemma eorigin_committed log0 ext c :
+    eorigin log0 ext c -> cp_committed c = true ->
+    is_success (cp_res c) = true
+    /\ In (PRec (r_seq (cp_res c)) (r_id (cp_res c)) (tagof c) (ps_cmd (cp_item c))) ext.
+  Proof.
+    intros [O|u O E1 E2 E3 E4 E5] K; [|congruence].
+    destruct O as [H1 H2|H1 H2 H3|r H1 H2 H3 H4 H5 H6 H7 H8 H9 H10]; try congruence. auto.
+  Qed.
+
+  (* with atomic failures, a success whose record carries the item's own tag is a
+     committed completion (the record was appended by this very effect) *)
+  Lemma eorigin_fresh log0 ext c :
+    atomic_failures -> NoDup (map pr_seq (log0 ++ ext)) ->
+    (forall r, In r log0 -> pr_tag r <> tagof c) ->
+    eorigin log0 ext c -> is_success (cp_res c) = true ->
+    forall r, In r (log0 ++ ext) -> pr_seq r = r_seq (cp_res c) -> pr_tag r = tagof c ->
+    cp_committed c = true.
+  Proof.
+    intros A Hnd Hfresh Ho Hs r Hr Hseq Htag.
+    assert (Huniq : forall r', In r' (log0 ++ ext) -> pr_seq r' = pr_seq r -> r' = r).
+    { intros r' Hr' E. clear -Hnd Hr Hr' E. induction (log0 ++ ext) as [|x l IH]; [contradiction|].
+      cbn [map] in Hnd. inversion Hnd; subst. destruct Hr as [Hr|Hr]; destruct Hr' as [Hr'|Hr'].
+      - congruence.
+      - subst x. exfalso. apply H1. rewrite <- E. apply in_map. exact Hr'.
+      - subst x. exfalso. apply H1. rewrite E. apply in_map. exact Hr.
+      - apply IH; auto. }
+    destruct Ho as [O|u O E1 E2 E3 E4 E5].
+    - destruct O as [H1 H2|H1 H2 H3|r0 H1 H2 H3 H4 H5 H6 H7 H8 H9 H10]; [congruence|exact H1|].
+      exfalso. assert (r0 = r) by (apply Huniq; [exact H3|congruence]). subst r0.
+      apply (Hfresh r (H4 A)). exact Htag.
+    - exfalso. rewrite E1 in Hs, Hseq.
+      destruct O as [H1 H2|H1 H2 H3|r0 H1 H2 H3 H4 H5 H6 H7 H8 H9 H10]; [congruence| |].
+      + assert (PRec (r_seq (cp_res u)) (r_id (cp_res u)) (tagof u) (ps_cmd (cp_item u)) = r)
+          by (apply Huniq; [apply in_or_app; right; exact H3|cbn [pr_seq]; congruence]).
+        subst r. cbn [pr_tag] in Htag. lia.
+      + assert (r0 = r) by (apply Huniq; [exact H3|congruence]). subst r0.
+        apply (Hfresh r (H4 A)). exact Htag.
+  Qed.
 End Run.
